@@ -140,6 +140,24 @@ def items(cfg):
     if cfg['tier'] == 'quick':
         rng.shuffle(out)
         out = out[:cfg['quick_sample']]
+    # every boundary literal, and literals whose SINGLE value lands on a
+    # rounding tie, converted to every numeric type (both tiers)
+    lits = []
+    for t in '%&!#':
+        lits.extend(VALS[t])
+    lits += ['3.4999999', '2.4999999', '.49999999', '-.49999999',
+             '1.4999999', '32767.4999', '-32768.4999', '16777217',
+             '16777216.5', '2.5#', '3.5#', '.5#', '-.5#', '32767.5#',
+             '-32768.5#', '2147483647.5#', '-2147483648.5#',
+             '2147483647.4999', '8388608.5', '4.5', '-4.5', '1.5', '-2.5']
+    seen = set()
+    for v in lits:
+        if v in seen:
+            continue
+        seen.add(v)
+        for t in '%&!#':
+            out.append((v, 'assign' + t))
+            out.append(('-(%s)' % v, 'assign' + t))
     return out
 
 
